@@ -128,11 +128,6 @@ Fixpoint init_wire_map (is : list inst) (m : nmap N) : nmap N :=
   | i :: r => init_wire_map r (nadd (iout i) (iout i) m)
   end.
 
-Fixpoint mapM_res {A B} (f : A -> res B) (l : list A) : res (list B) :=
-  match l with
-  | [] => Ok []
-  | a :: r => let* b := f a in let* bs := mapM_res f r in Ok (b :: bs)
-  end.
 
 Definition convert (c : circuit) : res rcircuit :=
   let lu := last_use_map c in
